@@ -7,6 +7,7 @@ rc=0
 for d in "$verif"/seeded/*/; do
   name=$(basename "$d")
   prop=$(python3 -c "import json,sys; print(json.load(open(sys.argv[1]))['property'])" "$d/meta.json")
+  if python3 -c "import json,sys; sys.exit(0 if json.load(open(sys.argv[1])).get('obsolete') else 1)" "$d/meta.json"; then echo "skip $name (obsolete: no longer breaks the property on the current tree)"; continue; fi
   rm -rf "$scratch"; mkdir -p "$scratch"; cp -r /repo "$scratch/repo"
   if ! (cd "$scratch/repo" && git apply "$d/patch.diff" 2>/dev/null); then echo "SKIP $name (patch no longer applies)"; continue; fi
   out=$(cd "$verif" && VERIF_REPO="$scratch/repo" ./check $prop quick 2>&1); r=$?
